@@ -52,3 +52,15 @@ func VerifNewKafkaZkClient(app *protocol.ApplicationContext, name, configRoot st
 	}
 	return module
 }
+
+// VerifConfigureKafkaClient runs the real Configure of a fresh Kafka consumer module on the given configuration root.
+func VerifConfigureKafkaClient(app *protocol.ApplicationContext, name, configRoot string) *KafkaClient {
+	module := &KafkaClient{App: app, Log: zap.NewNop()}
+	module.Configure(name, configRoot)
+	return module
+}
+
+// VerifClusterAndTopic reports the cluster and the offsets topic Configure left in the module.
+func (module *KafkaClient) VerifClusterAndTopic() (string, string) {
+	return module.cluster, module.offsetsTopic
+}
